@@ -46,6 +46,19 @@ def gen_datum(r, depth=0):
         if math.isnan(f):
             return "nan", "(/ 0.0 0.0)"
         return "float", lit(f)
+    if k < 0.315:
+        from .c10 import gen_int, gen_rat, gen_float, lit
+        import math
+
+        def part():
+            q = r.random()
+            if q < 0.4:
+                return lit(r.randint(-9, 9) or 1)
+            if q < 0.55:
+                return lit(gen_rat(r))
+            f = gen_float(r)
+            return "1.5" if math.isnan(f) else lit(f)
+        return "complex", "(make-rectangular %s %s)" % (part(), part())
     if k < 0.34:
         return "bool", r.choice(["#t", "#f"])
     if k < 0.42:
